@@ -464,7 +464,10 @@ pub fn triage(
     let mut known_out = Vec::new();
     let mut seen: BTreeSet<String> = BTreeSet::new();
     for f in failures {
-        let class = format!("{}|{}", f.violation.kind, f.cfg.fault_names().join("+"));
+        // signature = violation kind + the hard fault class of the configuration (soft faults such
+        // as slow workers, stalls and clock jumps do not change what the run may return)
+        let hard: Vec<&str> = f.cfg.fault_names().into_iter().filter(|n| n.starts_with("stage-") || n.starts_with("decoder-panic")).collect();
+        let class = format!("{}|{}", f.violation.kind, if hard.is_empty() { "fault-free".to_string() } else { hard.join("+") });
         if seen.contains(&class) {
             continue;
         }
